@@ -295,12 +295,9 @@ Every token the scanner returns is well formed (`lex_scanOK`: identifier / keywo
 text of an identifier, an identifier token is none of `true false nil and or contains in`, an integer literal is
 within int64, a string literal does not contain its own quote), and every leaf of the tree the parser builds is
 the content of one of its tokens (`parse_lvAll`). So a parsed tree is printable as soon as the values of its float
-literals are (`floatOK`: the exact decimal expansion `showFloat q` reads back as `q`). That this holds for every
-`float64` the scanner produces (`roundF64` is idempotent, and the exact expansion of a dyadic rational denotes
-it) is NOT proved; the stream `eshow` checks it on every generated case.
-
-Full statements (not proved): `parseExprSource s = .ok e → e.printable` and
-`parseExprSource s = .ok e → parseExprSource e.show = .ok e`, for all `s`. -/
+literals are (`floatOK`: the exact decimal expansion `showFloat q` reads back as `q`) - the `_partial` statements
+below. That hypothesis holds for every token of the scanner (`float_token_printable`), so the statements hold for
+every source text (`parse_image_printable`, `show_parse_source`). -/
 
 /-- **C08 (the parser's image is printable, up to float values).** A tree parsed from a source text whose float
     literal tokens have printable values is printable. -/
@@ -321,3 +318,65 @@ example : parseExprSource rtExText = .ok rtExTree := by
   rwa [show rtExTree.show = rtExText from by decide +kernel] at this
 /-- the float hypothesis on `1.50 | f: 0.1`: both literal values (3/2 and the double nearest to 0.1) are printable -/
 example : (lex [49, 46, 53, 48, 32, 124, 32, 102, 58, 32, 48, 46, 49]).1.all floatOK = true := by decide +kernel
+
+
+/-! ## Float literals (`Proofs/F64Lemmas.lean`, `Proofs/ShowFloatLemmas.lean`)
+
+The scanner's float rule is `'-'? digit+ ('.' digit+)?`: no exponent (`1e3` is the integer `1` followed by the
+identifier `e3`), no `NaN`/`Inf` spelling; the value is `strconv.ParseFloat` of the text, i.e. the decimal rounded
+to the nearest `float64` (`roundF64`, ties to even, gradual underflow); a literal that rounds to ±Inf is a syntax
+error and gives no token; a literal that denotes −0 (`-0.0`, `-0.0000…01` below half the least subnormal) is
+outside the model (`unmodelled`, no token). So the value of a float token is `±r` with `r` in the image of
+`roundF64` on a non-negative rational, and `−0` does not occur.
+
+* `roundF64` is a projection: the exponent it picks is the unique `e` with `2^52 ≤ a / 2^e < 2^53` (`fexp1_spec`,
+  `fexp_unique`), a rounded value is `0` or `m · 2^e` with `0 < m < 2^53`, `−1074 ≤ e`, normalised unless
+  `e = −1074` (`roundFloat_rep`), and such a value rounds to itself (`roundFloat_of_rep`).
+* the denominator of `m · 2^e` is a power of two, `2^j` (`den_int_mul_pow2`); `showFloat` writes `max 1 j`
+  fractional digits, and `N / 2^j = (N · 10^k / 2^j) / 10^k` exactly for `j ≤ k` (`dyadic_decimal`): the printed
+  digits denote the value (`decimalOfDigits_showFloat`), whatever their number (up to 1074 for a subnormal). -/
+
+/-- **C08 (a float literal's value is printable).** Whatever text the scanner's float rule has matched, the value it
+    denotes (`strconv.ParseFloat`: the nearest `float64`, finite, not −0) has an exact decimal expansion
+    `showFloat q` that the scanner reads back as the same value. -/
+theorem float_value_printable (tok : Bytes) (q : Rat) (h : floatLitValue tok = some (some q)) :
+    floatLitValue (showFloat q) = some (some q) := floatLitValue_showFloat_of_lit tok q h
+
+/-- **C08 (every float literal token is printable).** For every source text, every float literal token the scanner
+    returns satisfies `floatOK`: the hypothesis of the `_partial` statements holds unconditionally. -/
+theorem float_token_printable (s : Bytes) : (lex s).1.all floatOK = true := lex_floatOK s
+
+/-- **C08 (the parser's image is printable).** Every tree parsed from a source text is printable. -/
+theorem parse_image_printable (s : Bytes) (e : Expr) (h : parseExprSource s = .ok e) : e.printable = true :=
+  parse_image_printable_partial s e h (float_token_printable s)
+
+/-- **C08 (normalisation is idempotent, text, unconditional).** Whatever text parses to `e` - any spelling, any white
+    space, redundant parentheses, leading zeros, any number of digits in a float literal - the printed text of `e`
+    parses to `e` again. -/
+theorem show_parse_source (s : Bytes) (e : Expr) (h : parseExprSource s = .ok e) : parseExprSource e.show = .ok e :=
+  show_parse_source_partial s e h (float_token_printable s)
+
+/-! Non-vacuity -/
+
+/-- the literal `0.1` denotes `tenthF64`, whose printed text is the 55-digit expansion … -/
+example : floatLitValue [48, 46, 49] = some (some tenthF64) := by decide +kernel
+example : showFloat tenthF64 = tenthText := by decide +kernel
+/-- … which reads back as the same value (by the theorem, not by evaluation) -/
+example : floatLitValue tenthText = some (some tenthF64) := by
+  have := float_value_printable [48, 46, 49] tenthF64 (by decide +kernel)
+  rwa [show showFloat tenthF64 = tenthText from by decide +kernel] at this
+/-- `0.1` parses to a printable tree, and its printed text parses to the same tree -/
+example : (Expr.lit (.flt .f64 tenthF64)).printable = true := parse_image_printable [48, 46, 49] _ parse_tenth
+example : parseExprSource tenthText = .ok (.lit (.flt .f64 tenthF64)) := by
+  have := show_parse_source [48, 46, 49] (.lit (.flt .f64 tenthF64)) parse_tenth
+  rwa [show (Expr.lit (.flt .f64 tenthF64)).show = tenthText from by decide +kernel] at this
+/-- the canonical lexemes of the tokens of `2.5 1e3 -0.1 007.250`: `1e3` is the integer `1` and the identifier `e3`
+    (no exponent syntax); every float token is printable -/
+example : (lex [50, 46, 53, 32, 49, 101, 51, 32, 45, 48, 46, 49, 32, 48, 48, 55, 46, 50, 53, 48]).1.map ETok.lexeme =
+    [(.rFloat, [50, 46, 53]), (.rInt, [49]), (.rIdent, [101, 51]), (.rFloat, 45 :: tenthText), (.rFloat, [55, 46, 50, 53]),
+     (.rAny, [59])] := by decide +kernel
+example : (lex [50, 46, 53, 32, 49, 101, 51, 32, 45, 48, 46, 49, 32, 48, 48, 55, 46, 50, 53, 48]).1.all floatOK = true :=
+  float_token_printable _
+/-- `-0.0` has no value in the model (−0 is outside it); `1` followed by 309 zeros overflows: a syntax error, no token -/
+example : floatLitValue [45, 48, 46, 48] = none := by decide +kernel
+example : floatLitValue (49 :: List.replicate 309 48) = some none := by decide +kernel
